@@ -27,6 +27,19 @@ pub type R<T> = Result<T, Ctl>;
 fn throw<T>(msg: &str) -> R<T> {
     Err(Ctl::Throw(V::Str(msg.to_string())))
 }
+thread_local! {
+    /// set when the model raised only because HEAD does not support an operation on this kind of
+    /// value (pop on a vector, a nested write under an absent key of a defaulted dict, a
+    /// non-integer index, ...): an implementation may legitimately do more there, so a statement
+    /// that went through such a raise is not judged when it disagrees (see run.rs)
+    pub static UNSUPPORTED_RAISED: std::cell::Cell<bool> = const { std::cell::Cell::new(false) };
+}
+
+fn throw_unsupported<T>(msg: &str) -> R<T> {
+    UNSUPPORTED_RAISED.with(|c| c.set(true));
+    throw(msg)
+}
+
 fn unknown<T>(msg: &str) -> R<T> {
     Err(Ctl::Unknown(msg.to_string()))
 }
@@ -380,6 +393,13 @@ impl Model {
     fn eval_inner(&mut self, sc: &ScopeRef, e: &Ex) -> R<V> {
         match e {
             Ex::Null => Ok(V::Null),
+            // a negative integer literal is written `(0-n)`: it means what `-` means right now
+            Ex::Num(NumLit::Int(i)) if *i < 0 => match Model::lookup(sc, "-") {
+                Some(V::Func(f)) if matches!(&*f, FuncV::Builtin(b) if b == "-") => Ok(num_lit(&NumLit::Int(*i))),
+                Some(V::Func(f)) => self.call_func_at(sc, &f, vec![vint(0), V::Int(-BigInt::from(*i))]),
+                Some(_) => throw("type error: operator is not function"),
+                None => throw("name error: no such variable"),
+            },
             Ex::Num(n) => Ok(num_lit(n)),
             Ex::Str(s) => Ok(V::Str(s.clone())),
             Ex::Var(name) => match Model::lookup(sc, name) {
@@ -652,6 +672,7 @@ impl Model {
                         Some(v) => Ok(v),
                         None => throw("empty error: can't pop empty"),
                     },
+                    V::Vector(_) | V::Bytes(_) | V::Str(_) => throw_unsupported("type error: can't pop"),
                     _ => throw("type error: can't pop"),
                 }),
                 _ => throw("type error: can't pop, weird pattern"),
@@ -1184,7 +1205,7 @@ impl Model {
                 }
                 None => throw("index error: out of bounds of isize"),
             },
-            x if is_num(x) => throw("index error: non-integer"),
+            x if is_num(x) => throw_unsupported("index error: non-integer"),
             _ => throw("index error: invalid (non-numeric) index"),
         }
     }
@@ -1196,7 +1217,7 @@ impl Model {
                 Some(n) => Ok(Some(n)),
                 None => throw("index error: slice index out of bounds of isize"),
             },
-            Some(x) if is_num(x) => throw("index error: slice index non-integer"),
+            Some(x) if is_num(x) => throw_unsupported("index error: slice index non-integer"),
             Some(_) => throw("index error: invalid slice index"),
         }
     }
@@ -1400,6 +1421,7 @@ impl Model {
                     None => throw("key error: key not found"),
                 }
             }
+            V::Vector(_) | V::Bytes(_) | V::Str(_) => throw_unsupported("type error: can't remove"),
             _ => throw("type error: can't remove"),
         }
     }
@@ -1410,6 +1432,7 @@ impl Model {
                 let (a, b) = Model::pythonic_slice(xs.len(), lo, hi)?;
                 Ok(V::List(xs.drain(a..b).collect()))
             }
+            V::Vector(_) | V::Bytes(_) | V::Str(_) => throw_unsupported("type error: can't remove"),
             _ => throw("type error: can't remove"),
         }
     }
@@ -1512,7 +1535,39 @@ impl Model {
                 Ok(v)
             }
             ELv::Annot(inner, _) => self.lv_as_value(sc, inner),
-            ELv::Default(..) => unknown("default on lhs of op-assign"),
+            // `(d[k] = dflt) f= v`: the default expression stands in exactly when no key equal to k
+            // is present in a dictionary without a default of its own
+            ELv::Default(inner, dflt) => match &**inner {
+                ELv::Ident(name, ixs) if !ixs.is_empty() => {
+                    let mut v = match Model::lookup(sc, name) {
+                        Some(v) => v,
+                        None => return throw("name error: no such variable"),
+                    };
+                    let (last, prefix) = ixs.split_last().unwrap();
+                    for ix in prefix {
+                        v = match ix {
+                            EIx::Index(i) => self.index(&v, i)?,
+                            EIx::Slice(a, b) => self.slice(&v, a.as_ref(), b.as_ref())?,
+                        };
+                    }
+                    match (&v, last) {
+                        (V::Dict(d), EIx::Index(k)) if d.default.is_none() => {
+                            let k = self.to_key(k.clone())?;
+                            match d.get(&k) {
+                                Some(x) => Ok(x.clone()),
+                                None => self.eval(sc, dflt),
+                            }
+                        }
+                        (V::Dict(_), _) => throw("type error: default on lhs with defaulted dict"),
+                        _ => throw("type error: default on lhs: non-dict or non-index"),
+                    }
+                }
+                ELv::Ident(name, _) => match Model::lookup(sc, name) {
+                    Some(v) => Ok(v),
+                    None => throw("name error: no such variable"),
+                },
+                _ => unknown("default on lhs of op-assign"),
+            },
             ELv::Seq(xs, _) => {
                 let mut out = Vec::new();
                 for x in xs {
@@ -1621,7 +1676,7 @@ impl Model {
                 } else {
                     // documented as unimplemented ("Assigning to slices is indefinitely
                     // unimplemented"); the implementation must raise, not crash
-                    throw("assigning to slice is unimplemented")
+                    throw_unsupported("assigning to slice is unimplemented")
                 }
             }
             (V::Str(s), EIx::Index(i)) if rest.is_empty() => match value {
@@ -1641,7 +1696,7 @@ impl Model {
                             }
                         }
                     } else {
-                        throw("value error: assigning to string index, not a byte")
+                        throw_unsupported("value error: assigning to string index, not a byte")
                     }
                 }
                 Some(_) => throw("value error: assigning to string index, not a string"),
@@ -1656,6 +1711,9 @@ impl Model {
                 } else {
                     match d.find_w(&k) {
                         Some(j) => self.set_index(&mut d.entries[j].1, rest, value, every),
+                        None if d.default.is_some() => {
+                            throw_unsupported("type error: setting dictionary: nothing at key")
+                        }
                         None => throw("type error: setting dictionary: nothing at key"),
                     }
                 }
@@ -2183,6 +2241,41 @@ impl Model {
                 self.assign(sc, it, None, combined)?;
             }
             return Ok(V::Null);
+        }
+        // what a user-written operator can observe of the half-assigned variable when the slot sits
+        // under an ABSENT key of a defaulted dict (a null entry? no entry yet?) is not determined by
+        // anything documented: the model declines
+        if let (ELv::Ident(name, ixs), Some(V::Func(fv))) = (&p, Model::lookup(sc, op)) {
+            if matches!(&*fv, FuncV::Closure { .. }) {
+                if let Some(mut cur) = Model::lookup(sc, name) {
+                    for ix in ixs.iter() {
+                        let next = match (&cur, ix) {
+                            (V::Dict(d), EIx::Index(k)) => match self.to_key(k.clone()) {
+                                Ok(k) => match d.get(&k) {
+                                    Some(v) => Some(v.clone()),
+                                    None if d.default.is_some() => {
+                                        return unknown("user operator on a slot under an absent key of a defaulted dict");
+                                    }
+                                    None => None,
+                                },
+                                Err(_) => None,
+                            },
+                            (V::List(xs), EIx::Index(i)) => {
+                                Model::pythonic_index(xs.len(), i).ok().map(|j| xs[j].clone())
+                            }
+                            (V::Inst(_, fields), EIx::Index(V::Func(acc))) => match &**acc {
+                                FuncV::Field(_, fi) => fields.get(*fi).cloned(),
+                                _ => None,
+                            },
+                            _ => None,
+                        };
+                        match next {
+                            Some(v) => cur = v,
+                            None => break,
+                        }
+                    }
+                }
+            }
         }
         let lhs_value = self.lv_as_value(sc, &p)?;
         let opv = match Model::lookup(sc, op) {
